@@ -18,6 +18,7 @@ const (
 	whatWatch    = "watch mode: an edit changes the fresh build result but no watch predicate reports a change"
 	whatTick     = "watch mode: predicates report a dirty path but the watcher's scan never returns it"
 	whatDisk     = "ctx.Rebuild() with write=true leaves an output directory that differs from the returned output files"
+	whatSymlinkKnown = "known-G-watch-misses-symlink-retarget"
 	whatRepeat   = "a second ctx.Rebuild() without any edit differs from the fresh build"
 )
 
@@ -221,7 +222,13 @@ func runHistory(h *history, dir string, es *execStats) []glueFailure {
 			if prevFresh != beforeFresh {
 				es.watchChanged++
 				if len(dirty) == 0 {
-					fails = append(fails, glueFailure{what: whatWatch, stepNo: k, got: "dirty paths: []", expect: "at least one dirty path (fresh build result changed)",
+					what := whatWatch
+					if pureSymlinkRetarget(h.Steps[k].Ops) {
+						// recorded finding G (replayed by stream c09/known): a step whose only
+						// change is the re-pointing of a symlink leaves no watch record to trip
+						what = whatSymlinkKnown
+					}
+					fails = append(fails, glueFailure{what: what, stepNo: k, got: "dirty paths: []", expect: "at least one dirty path (fresh build result changed)",
 						detail: map[string]interface{}{"watched_paths_of_previous_build": relTo(root, watched)}})
 				}
 			}
@@ -318,6 +325,10 @@ func streamGlue(seed uint64, n int, tier string, tmp string) *Stats {
 				st.Histogram["unconfirmed:"+f.what]++
 				continue
 			}
+			if f.what == whatSymlinkKnown {
+				st.Histogram["recognised-known-finding-G:pure symlink retarget not reported dirty"]++
+				continue
+			}
 			in := map[string]interface{}{"options": h.Cfg, "failing_step": f.stepNo, "failing_edit": h.Steps[f.stepNo].Desc, "history": h.Steps[:f.stepNo+1]}
 			if f.detail != nil {
 				in["detail"] = f.detail
@@ -349,3 +360,10 @@ func relTo(root string, ps []string) []string {
 	return out
 }
 
+
+func pureSymlinkRetarget(ops []op) bool {
+	if len(ops) != 2 {
+		return false
+	}
+	return ops[0].Kind == "remove" && ops[1].Kind == "symlink" && ops[0].Path == ops[1].Path
+}
